@@ -199,9 +199,15 @@ class ReducerSpec:
     def configs(self):
         for dt in (1.0, 0.5):
             for dk in (1, 2, 3):
-                yield {"dt": dt, "duration": dk * dt, "inplace": False}
+                yield {"dt": dt, "duration": dk * dt, "inplace": False, "inclusive": False}
 
     fresh_per_history = True
+
+    def apply(self, c, name, value, cfg):
+        if name == "inclusive":  # the reducer's record carries the inclusivity; it is assigned on the record
+            c.data_.inclusive = value
+        else:
+            setattr(c, name, value)
 
     def setters(self, cfg):
         for v in (1.0, 0.5, 0.75):
@@ -210,9 +216,11 @@ class ReducerSpec:
             yield ("duration", v)
         for v in (False, True):
             yield ("inplace", v)
+        for v in (False, True):
+            yield ("inclusive", v)
 
     def make(self, cfg):
-        kw = dict(duration=cfg["duration"], inclusive=False, inplace=cfg["inplace"])
+        kw = dict(duration=cfg["duration"], inclusive=cfg.get("inclusive", False), inplace=cfg["inplace"])
         if self.kind == "trace":
             return CumulativeTraceReducer(cfg["dt"], 2.0, 1.0, 1.0, **kw)
         if self.kind == "nearest":
@@ -228,7 +236,7 @@ class ReducerSpec:
         return CAReducer(cfg["dt"], **kw)
 
     def getters(self, c):
-        return {"dt": c.dt, "duration": c.duration, "inplace": c.inplace}
+        return {"dt": c.dt, "duration": c.duration, "inplace": c.inplace, "inclusive": bool(c.data_.inclusive)}
 
     def behaviour(self, c, hist, cfg):
         # the configured reducer is re-used across histories with a shape-keeping clear in between, and compared each time
